@@ -15,6 +15,15 @@ import (
 
 func init() { vsched.External(BlackholeChan) }
 
+// vsStderr is a writable stderr port (DummyOutputPort's file is /dev/null opened read-only).
+var vsStderr = func() *Port {
+	f, err := os.OpenFile(os.DevNull, os.O_WRONLY, 0)
+	if err != nil {
+		panic(err)
+	}
+	return &Port{File: f, Chan: BlackholeChan}
+}()
+
 // vsErrString renders an evaluation error canonically: the reasons of a
 // pipeline error are listed in stage order.
 func vsErrString(err error) string {
@@ -54,7 +63,7 @@ func vsEvalBody(code string, setup func(ev *Evaler)) func() {
 		if err != nil {
 			panic(err)
 		}
-		err = ev.Eval(parse.Source{Name: "v", Code: code}, EvalCfg{Ports: []*Port{DummyInputPort, port, DummyOutputPort}})
+		err = ev.Eval(parse.Source{Name: "v", Code: code}, EvalCfg{Ports: []*Port{DummyInputPort, port, vsStderr}})
 		vs, bs := collect()
 		vsched.Logf("result err=%s values=%s bytes=%q", vsErrString(err), vsValues(vs), bs)
 	}
